@@ -19,7 +19,7 @@ func init() {
 		Run:   runC06,
 		Explanation: "C06.core: Ver.Compare evaluated over the 27 orderings of (Major, Minor, Patch) by predicate abstraction: result is ∓1 by the first differing component in receiver-vs-argument direction, and for equal cores the tail call is ComparePreRelease(v.PreRelease, ver.PreRelease) in that order (side condition: the fields are used only in same-field comparisons). " +
 			"C06.empty: DefaultComparePreRelease over (len(a)?0, len(b)?0): both empty 0, only a empty +1, only b empty −1. " +
-			"C06.build: no function reachable from Ver.Compare reads Ver.Build. C06.entry: the six string helpers parse both inputs with their own parser, test both errors, and return parse(a).Compare(parse(b)) / .Latest. " +
+			"C06.build: no function reachable from Ver.Compare reads Ver.Build. C06.entry: the six string helpers parse both inputs with their own parser, test both errors, and return parse(a).Compare(parse(b)) / .Latest; an error is returned only behind the failing edge of one of the two parse calls. C06.parse: the decision table of sem.unmarshalText and its field ← capture mapping (as C03.gate / C03.num): the compared fields are the captures of the pattern applied to the whole input. C06.latest: Ver.Latest returns the argument exactly when Compare = −1 and the receiver otherwise (as C14.latest). " +
 			"C06.sep: some constant containing '.' is used by the code reachable from DefaultComparePreRelease (identifier-wise comparison must see the separator). " +
 			"C06.num: where the code establishes that both operands are all-digit, every path to the result contains a length comparison or numeric conversion.",
 		NotDecided:  []string{"full conformance of the identifier-wise comparison for all strings (value-level string scan)", "the pinned a01 == a1 departure is untouched by every rule"},
@@ -34,10 +34,15 @@ func runC06(e *Env) {
 	ruleC06Build(e, "C06.build")
 	ruleC06Entry(e, "C06.entry")
 	ruleSuffix(e, "C06.numorder")
+	ruleLatest(e, "C06.latest")
+	// the string entry points order the texts they are given: the parser maps the whole text to the compared fields
+	ruleSemGate(e, "C06.parse", "C06.parse")
+	e.S.Floor("C06.parse", 18)
+	e.S.Floor("C06.latest", 3)
 	e.S.Floor("C06.core", 28)
 	e.S.Floor("C06.empty", 3)
 	e.S.Floor("C06.build", 1)
-	e.S.Floor("C06.entry", 24)
+	e.S.Floor("C06.entry", 30)
 	dcp := e.Fn("C06.sep", "sem", "DefaultComparePreRelease")
 	if dcp != nil {
 		reach := e.C.Reachable(dcp)
@@ -283,6 +288,29 @@ func ruleC06Entry(e *Env, rule string) {
 		} else {
 			e.S.Bad(rule, site, "errors", "a parse error is not tested before the value is used: an invalid text does not produce an error", e.Pos(fn), "")
 		}
+		// an error is returned only on the failing edge of one of the two parses: the helper is invalid exactly when a text is
+		if okErr {
+			var stray []string
+			for _, r := range flow.Returns(fn) {
+				if len(r.Results) != 2 || flow.IsNilConst(r.Results[1]) {
+					continue
+				}
+				behind := false
+				for _, c := range []*ssa.Call{pa, pb} {
+					if eb := errEdgeOf(c); eb != nil && len(eb.Preds) == 1 && eb.Dominates(r.Block()) {
+						behind = true
+					}
+				}
+				if !behind {
+					stray = append(stray, e.posOf(r))
+				}
+			}
+			if len(stray) > 0 {
+				e.S.Bad(rule, site, "only-parse-errors", x.name+" returns an error on a path where neither "+x.parser+" call failed ("+strings.Join(stray, ", ")+"): it rejects texts the parser accepts", e.Pos(fn), "")
+			} else {
+				e.S.Ok(rule, site, "only-parse-errors", "every error return lies behind the failing edge of one of the two "+x.parser+" calls", e.Pos(fn))
+			}
+		}
 		// result: method(recv = value of pa, arg = value of pb)
 		var mcall *ssa.Call
 		for _, c := range e.C.Calls(fn, func(f *ssa.Function) bool { return f == method }) {
@@ -346,6 +374,31 @@ func errContinuation(call *ssa.Call) *ssa.BasicBlock {
 				}
 				if flow.LeadsOnlyToErrors(errEdge) {
 					return okEdge
+				}
+			}
+		}
+	}
+	return nil
+}
+
+// errEdgeOf: the successor taken when the call's error result is non-nil (nil if the idiom is not found).
+func errEdgeOf(call *ssa.Call) *ssa.BasicBlock {
+	for _, r := range *call.Referrers() {
+		ex, ok := r.(*ssa.Extract)
+		if !ok || ex.Index != 1 {
+			continue
+		}
+		for _, r2 := range *ex.Referrers() {
+			bo, ok := r2.(*ssa.BinOp)
+			if !ok || !flow.IsNilConst(bo.Y) {
+				continue
+			}
+			for _, r3 := range *bo.Referrers() {
+				if iff, ok := r3.(*ssa.If); ok {
+					if bo.Op == token.EQL {
+						return iff.Block().Succs[1]
+					}
+					return iff.Block().Succs[0]
 				}
 			}
 		}
